@@ -81,3 +81,91 @@ package oggwriter
 //@ ensures uint32(result[22]) | uint32(result[23])<<8 | uint32(result[24])<<16 | uint32(result[25])<<24 == specCrc(checksumTable, withzero(result, 22, 26), len(result))
 //@ modifies nothing
 //@ loop 0 invariant rangeindex < len(page) && checksum == specCrc(checksumTable, page, rangeindex + 1)
+
+// Lacing (RFC 3533 section 5/6): a packet is cut into pages of at most 255 segments. Every
+// page is built (region postconditions at the call of the page builder) from the next
+// consecutive piece of the packet, with a segment table of 255s closed by a final value
+// below 255 exactly on the page that completes the packet; pages before it carry 255 full
+// segments, the continuation flag from the second page on, no granule position; the
+// completing page carries the packet's granule position; sequence numbers count up by one.
+// The pieces add up to the packet (payloadOffset reaches len(payload)).
+//@ func createPagesForSerial
+//@ props C33
+//@ requires checksumTable != nil && headerType & 0x01 == 0
+//@ atcall createPageForSerialWithSegments assert sameptr(callarg1, payload[payloadOffset:]) && len(callarg1) == pagePayloadSize && payloadOffset + pagePayloadSize + remainingPayload == len(payload)
+//@ atcall createPageForSerialWithSegments assert 1 <= len(callarg2) && len(callarg2) <= 255 && (forall k int :: 0 <= k && k < len(callarg2) - 1 ==> callarg2[k] == 255)
+//@ atcall createPageForSerialWithSegments assert packetComplete ==> callarg2[len(callarg2)-1] < 255 && pagePayloadSize == 255 * (len(callarg2) - 1) + int(callarg2[len(callarg2)-1]) && remainingPayload == 0
+//@ atcall createPageForSerialWithSegments assert !packetComplete ==> callarg2[len(callarg2)-1] == 255 && len(callarg2) == 255 && pagePayloadSize == 65025
+//@ atcall createPageForSerialWithSegments assert callarg3 == specPageFlags(headerType, len(pages) == 0, packetComplete) | ite(len(pages) == 0, headerType &^ 0x07, 0)
+//@ atcall createPageForSerialWithSegments assert callarg4 == ite(packetComplete, granulePos, 18446744073709551615) && callarg5 == serial && callarg6 == old(pageIndex) + uint32(len(pages)) && callarg0 == checksumTable
+//@ ensures len(result) >= 1 && 65025*(len(result)-1) <= len(payload) && len(payload) < 65025*len(result)
+//@ modifies nothing
+//@ loop 0 invariant 0 <= remainingPayload && payloadOffset + remainingPayload == len(payload) && payloadOffset == 65025 * len(pages) && firstPage == (len(pages) == 0) && pageIndex == old(pageIndex) + uint32(len(pages)) && fresh(pages) && len(pages) < 1<<40
+//@ loop 1 invariant len(segmentTable) <= 255 && cap(segmentTable) == 255 && fresh(segmentTable) && !sameobj(segmentTable, pages) && pagePayloadSize == 255 * len(segmentTable) && !packetComplete && 0 <= remainingPayload && payloadOffset + pagePayloadSize + remainingPayload == len(payload)
+//@ loop 1 invariant payloadOffset == 65025 * len(pages) && firstPage == (len(pages) == 0) && pageIndex == old(pageIndex) + uint32(len(pages)) && fresh(pages) && len(pages) < 1<<40
+//@ loop 1 invariant forall k int :: 0 <= k && k < len(segmentTable) ==> segmentTable[k] == 255
+
+// Assumed contracts on dependencies: the output is an event sink (ghost counter wrWrites);
+// seeking and rewriting do not write this package's memory.
+//@ func (io.Writer).Write
+//@ trusted
+//@ ghost wrWrites += 1
+//@ modifies nothing
+//@ func (pageRewriter).Seek
+//@ trusted
+//@ modifies nothing
+//@ func (pageRewriter).WriteAt
+//@ trusted
+//@ ghost wrRewrites += 1
+//@ modifies nothing
+
+//@ func writeToStream
+//@ props C33
+//@ ensures stream == nil ==> err != nil && ghost(wrWrites) == old(ghost(wrWrites))
+//@ ensures stream != nil ==> ghost(wrWrites) == old(ghost(wrWrites)) + 1
+//@ atcall (io.Writer).Write assert sameptr(callarg1, p) && len(callarg1) == len(p)
+//@ modifies nothing
+
+// writePage: every page of the packet goes to the stream once, in order, and the track's
+// sequence number advances by the number of pages written.
+//@ func writePage
+//@ props C33
+//@ requires checksumTable != nil && track != nil && headerType & 0x01 == 0 && stream != nil
+//@ atcall createPagesForSerial assert callarg0 == checksumTable && sameptr(callarg1, payload) && len(callarg1) == len(payload) && callarg2 == headerType && callarg3 == granulePos && callarg4 == track.serial && callarg5 == track.pageIndex
+//@ atcall writeToStream assert ghost(wrWrites) == old(ghost(wrWrites)) + uint64(i) && sameptr(callarg1, pages[i].data) && len(callarg1) == len(pages[i].data)
+//@ ensures err == nil ==> track.pageIndex - old(track.pageIndex) == uint32(ghost(wrWrites) - old(ghost(wrWrites))) && ghost(wrWrites) - old(ghost(wrWrites)) >= 1
+//@ ensures err != nil ==> track.pageIndex == old(track.pageIndex)
+//@ ensures track.previousGranulePosition == old(track.previousGranulePosition) && track.serial == old(track.serial)
+//@ modifies obj(track), obj(track.lastPayload)
+//@ loop 0 invariant rangeindex < len(pages) && ghost(wrWrites) == old(ghost(wrWrites)) + uint64(rangeindex + 1) && track.pageIndex == old(track.pageIndex) && track.previousGranulePosition == old(track.previousGranulePosition) && track.serial == old(track.serial)
+//@ loop 0 invariant sameobj(track.lastPayload, old(track.lastPayload)) || fresh(track.lastPayload)
+
+// writeOpusPayload: the granule position is the running total of the packets' sample
+// counts (48 kHz): it grows by exactly the packet's duration, never decreases, is left
+// alone by an invalid packet, and is the position stamped on the packet's last page.
+//@ func writeOpusPayload
+//@ props C33
+//@ requires checksumTable != nil && track != nil && stream != nil
+//@ atcall writePage assert callarg5 == 0 && callarg6 == track.previousGranulePosition && callarg6 == old(track.previousGranulePosition) + specOpusPacketSamples(payload) && sameptr(callarg4, payload) && len(callarg4) == len(payload) && callarg3 == track
+//@ ensures err == nil ==> track.previousGranulePosition == old(track.previousGranulePosition) + old(specOpusPacketSamples(payload)) && old(specOpusPacketSamples(payload)) <= 5760
+//@ ensures !old(len(payload) >= 1 && specOpusFrameCount(payload) != 0 && specOpusPacketSamples(payload) <= 5760) ==> err != nil && track.previousGranulePosition == old(track.previousGranulePosition) && track.pageIndex == old(track.pageIndex) && ghost(wrWrites) == old(ghost(wrWrites))
+
+// End of stream on a non-seekable output: one empty page with the end-of-stream flag, the
+// next sequence number and the final granule position, for a stream that has pages.
+//@ func writeNilEndOfStreamPage
+//@ props C33
+//@ requires checksumTable != nil && stream != nil
+//@ atcall createPageForSerialWithSegments assert callarg3 == 0x04 && callarg4 == track.previousGranulePosition && callarg5 == track.serial && callarg6 == track.pageIndex && len(callarg1) == 0 && len(callarg2) == 0
+//@ ensures err == nil && track != nil && old(track.pageIndex) != 0 ==> track.pageIndex == old(track.pageIndex) + 1 && ghost(wrWrites) == old(ghost(wrWrites)) + 1
+//@ ensures track != nil && old(track.pageIndex) == 0 ==> err == nil && ghost(wrWrites) == old(ghost(wrWrites)) && track.pageIndex == 0
+
+// End of stream on a seekable output: the last page written for the track is rebuilt with
+// the end-of-stream flag added, the same payload, granule position, serial and sequence
+// number, and rewritten in place.
+//@ func markTrackEndOfStream
+//@ props C33
+//@ requires checksumTable != nil && rewriter != nil
+//@ atcall createPageForSerial assert callarg2 == track.lastPageHeaderType | 0x04 && callarg3 == track.lastGranulePosition && callarg4 == track.serial && callarg5 == track.lastPageIndex && sameptr(callarg1, track.lastPayload) && len(callarg1) == len(track.lastPayload)
+//@ atcall (pageRewriter).WriteAt assert callarg2 == track.lastPageOffset
+//@ ensures track == nil || !old(track.lastPageWritten) ==> err == nil && ghost(wrRewrites) == old(ghost(wrRewrites))
+//@ ensures track != nil && old(track.lastPageWritten) ==> ghost(wrRewrites) == old(ghost(wrRewrites)) + 1
